@@ -358,6 +358,35 @@ func assignedInClear(p *core.Program, t *types.Named, seen map[*types.Named]bool
 		return
 	}
 	info := fi.Pkg.TypesInfo
+	// a way out of Clear that lies before one of its field assignments leaves those fields as they
+	// were: the assignments after it do not count on that path
+	{
+		var rets []token.Pos
+		var lastStore token.Pos
+		rn := recvName(fi)
+		ast.Inspect(fi.Decl.Body, func(n ast.Node) bool {
+			switch v := n.(type) {
+			case *ast.FuncLit:
+				return false
+			case *ast.ReturnStmt:
+				rets = append(rets, v.Pos())
+			case *ast.AssignStmt:
+				for _, l := range v.Lhs {
+					if sel, ok := ast.Unparen(l).(*ast.SelectorExpr); ok {
+						if id, ok := ast.Unparen(sel.X).(*ast.Ident); ok && id.Name == rn && v.Pos() > lastStore {
+							lastStore = v.Pos()
+						}
+					}
+				}
+			}
+			return true
+		})
+		for _, rp := range rets {
+			if rp < lastStore {
+				out["!early:"+p.Pos(rp)] = true
+			}
+		}
+	}
 	ast.Inspect(fi.Decl.Body, func(n ast.Node) bool {
 		switch v := n.(type) {
 		case *ast.AssignStmt:
@@ -482,6 +511,9 @@ func c07Clear(p *core.Program, r *core.Report, reg *registryResult) {
 		sort.Strings(missing)
 		c := "lang/pack/udp.(*" + nm + ").Clear"
 		for k := range got {
+			if strings.HasPrefix(k, "!early:") {
+				r.Viol("C07.clear", c+" leaves early", p.Pos(tn.Pos()), "a path leaves Clear (return at "+strings.TrimPrefix(k, "!early:")+") before the field assignments that follow it: a pack released on that path keeps those fields for its next holder")
+			}
 			if strings.HasPrefix(k, "!shared:") {
 				r.Viol("C07.clear", c+" shares storage", p.Pos(tn.Pos()), "Clear points a field at package-level storage ("+strings.TrimPrefix(k, "!shared:")+"): every pack cleared this way holds the same object, so what one use stores there is seen by the next holder")
 			}
